@@ -214,6 +214,27 @@ func init() {
 		st.trace = append(st.trace, "os.Remove:ok")
 		k(st, []Value{OpaqueV{T: IntLit(0), Type: errType()}})
 	}
+	// os.RemoveAll(path): path and everything below it are gone; nothing else is touched.
+	// ASSUMED TO SUCCEED: EnsureCleared ignores its error, and a failing removal (which would
+	// leave files that no record accounts for) is not modelled.
+	models["os.RemoveAll"] = func(x *Exec, fr *Frame, st *State, pc *preparedCall, k func(*State, []Value)) {
+		x.Trusted["os.RemoveAll is assumed to succeed (its error is ignored by assertedpath.EnsureCleared); a failing removal is not modelled"] = true
+		path := x.strID(st, pc.args[0].(StrV))
+		old := st.ghostArr("fsinode", SInt)
+		nw := Var(x.fresh("G_fsinode"), old.Sort)
+		kq := x.qvar("rk")
+		st.assumeRaw(Forall([]*Term{kq}, Eq(Select(nw, App("pathjoin", SInt, path, kq)), IntLit(0))))
+		st.assumeRaw(Eq(Select(nw, path), IntLit(0)))
+		q := x.qvar("rq")
+		st.assumeRaw(Forall([]*Term{q}, Or(Eq(Select(nw, q), IntLit(0)), Eq(Select(nw, q), Select(old, q)))))
+		st.setGhostArr("fsinode", nw)
+		x.pathAxioms()
+		k(st, []Value{OpaqueV{T: IntLit(0), Type: errType()}})
+	}
+	// os.MkdirAll: directories are not part of the ghost file system
+	models["os.MkdirAll"] = func(x *Exec, fr *Frame, st *State, pc *preparedCall, k func(*State, []Value)) {
+		k(st, []Value{x.freshErr(st, "mkdirerr")})
+	}
 	models["os.Stat"] = func(x *Exec, fr *Frame, st *State, pc *preparedCall, k func(*State, []Value)) {
 		path := x.strID(st, pc.args[0].(StrV))
 		sig := pc.fn.Type().(*types.Signature)
